@@ -421,6 +421,8 @@ Section MGetTop.
         rewrite map_app, nth_error_app2, Nat.sub_diag by lia. cbn [map nth_error].
         unfold rewritten. now rewrite Hsrv. }
       rewrite Hlast.
+      assert (Hnoerr : msg_error (arr (map elem misskeys)) = None) by reflexivity.
+      rewrite Hnoerr.
       assert (Hlc : length commands = S (length ks + length pathopt)) by (unfold commands; cbn [length]; now rewrite app_length).
       assert (Hlr : length rewritten = S (n + length pathopt)) by (unfold rewritten; cbn [length]; rewrite app_length; reflexivity).
       rewrite Hlc, Hlr.
